@@ -91,6 +91,8 @@ std::string shapeContent(NifFile& nif, NiShape* s, bool withNormals) {
 }
 
 // parallel walk over child references: same type, same canonical content
+bool gModelSpaceClone = false; // set per case
+
 // pairs: source block -> its clone, for every block met on the walk (used for the pointer check)
 std::string compareSubgraph(NifFile& srcNif, NiObject* a, NifFile& dstNif, NiObject* b, int depth, std::set<NiObject*>& seen, bool isTop,
 							std::map<NiObject*, NiObject*>* pairs = nullptr) {
@@ -109,7 +111,9 @@ std::string compareSubgraph(NifFile& srcNif, NiObject* a, NifFile& dstNif, NiObj
 	if (!isTop) {
 		std::string ca = canonPayload(pa, co), cb = canonPayload(pb, co);
 		// skin instances: the bone pointer list is rebuilt from names (checked separately)
-		if (ca != cb && !a->HasType<NiBoneContainer>())
+		// geometry data of a model-space shape: the clone drops normals and tangents by design (its
+		// geometry is compared through the accessors instead)
+		if (ca != cb && !a->HasType<NiBoneContainer>() && !(gModelSpaceClone && a->HasType<NiGeometryData>()))
 			return std::string(a->GetBlockName()) + ": content of the cloned block differs from the source's";
 	}
 	// child references in enumeration order
@@ -265,6 +269,21 @@ Verdict prop(Tape& t, Run& run) {
 	{
 		// sometimes an animated shader: a chain of controllers that all point back at the shader
 		uint8_t c = t.u8();
+		if ((c & 12) == 12) {
+			// Skyrim model-space normal maps: the clone drops its normals and tangents by design - its own
+			if (auto l = dynamic_cast<BSLightingShaderProperty*>(srcNif->GetShader(srcShape))) {
+				auto& v = srcNif->GetHeader().GetVersion();
+				if (v.IsSK() || v.IsSSE()) {
+					l->shaderFlags1 |= (1 << 12);
+					desc += " +model-space-shader";
+					run.cls("source-with-model-space-shader");
+					if (fromFile) {
+						fileBytes.clear();
+						saveBytes(*srcNif, fileBytes, rawOpts());
+					}
+				}
+			}
+		}
 		if ((c & 3) == 3) {
 			uint32_t n = attachShaderControllers(*srcNif, srcShape, 1 + (c >> 2) % 3);
 			if (n) {
@@ -314,6 +333,8 @@ Verdict prop(Tape& t, Run& run) {
 	auto shaderOf = srcNif->GetShader(srcShape);
 	const bool modelSpace = shaderOf && shaderOf->IsModelSpace() && (srcNif->GetHeader().GetVersion().IsSK() || srcNif->GetHeader().GetVersion().IsSSE());
 	const std::string want = shapeContent(*srcNif, srcShape, !modelSpace);
+	gModelSpaceClone = modelSpace;
+	const std::string srcFull0 = shapeContent(*srcNif, srcShape, true); // the source itself, normals and tangents included
 	const bool rich = shaderOf && (srcShape->IsSkinned() || srcShape->extraDataRefs.GetSize() > 0);
 
 	for (uint32_t r = 0; r < reps; r++) {
@@ -329,8 +350,8 @@ Verdict prop(Tape& t, Run& run) {
 			if (b != srcBytes0)
 				return run.fail("C14:source-modified:" + destName, detail("cloning into another model changed the source model: " + firstDiff(srcBytes0, b)));
 		}
-		else if (shapeContent(*srcNif, srcShape, !modelSpace) != want)
-			return run.fail("C14:source-modified:same-model", detail("cloning changed the source shape"));
+		else if (shapeContent(*srcNif, srcShape, true) != srcFull0)
+			return run.fail("C14:source-modified:same-model", detail("cloning changed the source shape: " + batteryDiff(srcFull0, shapeContent(*srcNif, srcShape, true))));
 		// (content)
 		std::string got = shapeContent(*dst, clone, !modelSpace);
 		if (got != want)
